@@ -38,6 +38,7 @@ struct Cx<'a> {
     alias: HashMap<String, String>,
     tmp: usize,
     expect: Option<String>, // integer type the context asks for (for unsuffixed literals)
+    ptrs: HashMap<String, String>, // let p = arr.as_mut_ptr().cast::<__m128i>();  p -> arr
 }
 
 fn is_int_ty(s: &str) -> bool {
@@ -221,6 +222,7 @@ impl<'a> Cx<'a> {
             },
             syn::Expr::Unary(u) => match u.op {
                 syn::UnOp::Deref(_) => self.expr(&u.expr),
+                syn::UnOp::Not(_) if toks(&u.expr) == "self . buffer . is_empty ()" => format!("(XApp \"not_bool\" [{}])", self.expr(&u.expr)),
                 syn::UnOp::Not(_) => match self.scalar_ty(&u.expr).or_else(|| self.expect.clone()) {
                     Some(t) if is_int_ty(&t) => format!("(XApp {} [{}])", q(&format!("not_{}", t)), self.expr(&u.expr)),
                     _ => Self::unsupported(e),
@@ -325,9 +327,13 @@ impl<'a> Cx<'a> {
                 }
                 Self::unsupported(e)
             }
+            syn::Expr::Repeat(r) => match (Self::lit(&r.expr), Self::lit(&r.len)) {
+                (Some((v, _)), Some((n, _))) => format!("(XApp \"array_repeat\" [(XLit {}); (XLit {})])", v, n),
+                _ => Self::unsupported(e),
+            },
             syn::Expr::MethodCall(m) => {
                 let name = m.method.to_string();
-                if toks(&m.receiver) == "self . buffer" && m.args.is_empty() && (name == "len" || name == "as_slice") {
+                if toks(&m.receiver) == "self . buffer" && m.args.is_empty() && (name == "len" || name == "as_slice" || name == "is_empty") {
                     return format!("(XApp {} [])", q(&format!("buffer.{}", name)));
                 }
                 if name == "as_ptr" && m.args.is_empty() {
@@ -362,6 +368,70 @@ impl<'a> Cx<'a> {
         Some(format!("VLetTuple [{}] (XApp {} [{}])", fields.iter().map(|x| q(x)).collect::<Vec<_>>().join("; "), q(&f.qual), es.join("; ")))
     }
 
+    // `if c { .. }` without else and `for _ in 0..N { .. }` whose bodies only rebind the receiver's fields (calls of
+    // `&mut self` methods, assignments to self.<field>): a body that declares a local would need Rust's block scoping,
+    // which the flat VecLite environment does not have, so it is left outside the fragment.
+    fn nested(&mut self, e: &syn::Expr) -> Option<String> {
+        let (head, body) = match e {
+            syn::Expr::If(i) if i.else_branch.is_none() => (format!("VIf {}", self.expr(&i.cond)), &i.then_branch),
+            syn::Expr::ForLoop(f) => {
+                let pat_ok = match &*f.pat {
+                    syn::Pat::Wild(_) => true,
+                    syn::Pat::Ident(id) => id.ident.to_string().starts_with('_'),
+                    _ => false,
+                };
+                let n = match &*f.expr {
+                    syn::Expr::Range(r) if matches!(r.limits, syn::RangeLimits::HalfOpen(_)) => match (r.start.as_deref().and_then(Self::lit), r.end.as_deref().and_then(Self::lit)) {
+                        (Some((0, _)), Some((n, _))) if n <= 64 => Some(n),
+                        _ => None,
+                    },
+                    _ => None,
+                };
+                match (pat_ok, n) {
+                    (true, Some(n)) => (format!("VRepeat {}", n), &f.body),
+                    _ => return Some(format!("VUnsupported {}", q(&toks(e)))),
+                }
+            }
+            _ => return None,
+        };
+        let mut inner = Vec::new();
+        let tail = self.block(body, &mut inner);
+        let ok = tail.is_none() && inner.iter().all(|s| s.starts_with("VLetTuple [\"self.") || s.starts_with("VLet \"self."));
+        if !ok {
+            return Some(format!("VUnsupported {}", q(&toks(e))));
+        }
+        Some(format!("{} [{}]", head, inner.join("; ")))
+    }
+
+    // _mm_storel_epi64(addr_of_mut!(r).cast::<__m128i>(), v)  and  _mm_storeu_si128(<ptr into a local [u64; n]>, v):
+    // a store through a pointer to a local is read as rebinding the local (the primitive gets the old value, the offset
+    // in units of the pointee __m128i, and the vector; an offset outside the array is a Fault)
+    fn store(&mut self, e: &syn::Expr) -> Option<String> {
+        let c = match e { syn::Expr::Call(c) => c, _ => return None };
+        let f = toks(&c.func).replace(' ', "");
+        if (f != "_mm_storel_epi64" && f != "_mm_storeu_si128") || c.args.len() != 2 {
+            return None;
+        }
+        let dst = toks(&c.args[0]).replace(' ', "");
+        let v = self.expr(&c.args[1]);
+        let target: Option<(String, u128)> = if let Some(n) = dst.strip_prefix("core::ptr::addr_of_mut!(").and_then(|r| r.strip_suffix(").cast::<__m128i>()")) {
+            Some((n.to_string(), 0))
+        } else if let Some(n) = dst.strip_suffix(".as_mut_ptr().cast::<__m128i>()") {
+            Some((n.to_string(), 0))
+        } else if let Some(a) = self.ptrs.get(&dst) {
+            Some((a.clone(), 0))
+        } else if let Some((p, k)) = dst.strip_suffix(')').and_then(|r| r.split_once(".add(")) {
+            match (self.ptrs.get(p), k.parse::<u128>()) { (Some(a), Ok(k)) => Some((a.clone(), k)), _ => None }
+        } else {
+            None
+        };
+        match target {
+            Some((n, k)) if n.chars().all(|ch| ch.is_alphanumeric() || ch == '_') && self.sty.contains_key(&n) =>
+                Some(format!("VLet {} (XApp {} [(XVar {}); (XLit {}); {}])", q(&n), q(&f), q(&n), k, v)),
+            _ => Some(format!("VUnsupported {}", q(&toks(e)))),
+        }
+    }
+
     fn block(&mut self, b: &syn::Block, out: &mut Vec<String>) -> Option<String> {
         let n = b.stmts.len();
         for (k, st) in b.stmts.iter().enumerate() {
@@ -393,6 +463,14 @@ impl<'a> Cx<'a> {
                                 }
                             }
                         }
+                    }
+                    if let Some(st) = self.nested(e) {
+                        out.push(st);
+                        continue;
+                    }
+                    if let Some(st) = self.store(e) {
+                        out.push(st);
+                        continue;
                     }
                     match e {
                         syn::Expr::Assign(a) => {
@@ -456,6 +534,13 @@ impl<'a> Cx<'a> {
         match pat {
             syn::Pat::Ident(id) => {
                 let name = id.ident.to_string();
+                // let p = arr.as_mut_ptr().cast::<__m128i>();  — a pointer to a local array (see store)
+                if let Some(a) = toks(init).replace(' ', "").strip_suffix(".as_mut_ptr().cast::<__m128i>()") {
+                    if self.sty.contains_key(a) {
+                        self.ptrs.insert(name, a.to_string());
+                        return;
+                    }
+                }
                 // let v = &mut self.field;  — an alias
                 if let syn::Expr::Reference(r) = init {
                     if let Some(p) = self.place_name(&r.expr) {
@@ -589,7 +674,7 @@ pub fn translate(files: &[(&str, &syn::File)], hash_ty: &str, wrap_ty: &str, wan
     let mut from_impls = Vec::new();
     for (k, (owner, qual, sig, block, fattrs)) in todo.iter().enumerate() {
         let in_wrap = matches!(owner, Owner::Wrap | Owner::WrapTrait(_));
-        let mut cx = Cx { w: &w, in_wrap, wrap_vars: HashSet::new(), sty: HashMap::new(), alias: HashMap::new(), tmp: 0, expect: None };
+        let mut cx = Cx { w: &w, in_wrap, wrap_vars: HashSet::new(), sty: HashMap::new(), alias: HashMap::new(), tmp: 0, expect: None, ptrs: HashMap::new() };
         let mut params: Vec<String> = Vec::new();
         let mut body: Vec<String> = Vec::new();
         let mut recv_mut = false;
@@ -648,8 +733,11 @@ pub fn translate(files: &[(&str, &syn::File)], hash_ty: &str, wrap_ty: &str, wan
                 format!("(XTup [{}])", w.fields.iter().map(|f| format!("(XVar {})", q(&format!("self.{}", f)))).collect::<Vec<_>>().join("; "))
             }
         } else if recv_mut {
-            // a value AND a mutated receiver: outside the fragment
-            format!("(XUnsupported {})", q("&mut self method returning a value"))
+            // a value AND a mutated receiver: the pair (value, fields)
+            match tail {
+                Some(t) if !in_wrap => format!("(XTup [{}; (XTup [{}])])", t, w.fields.iter().map(|f| format!("(XVar {})", q(&format!("self.{}", f)))).collect::<Vec<_>>().join("; ")),
+                _ => format!("(XUnsupported {})", q("&mut self method returning a value")),
+            }
         } else {
             tail.unwrap_or_else(|| "(XTup [])".to_string())
         };
